@@ -154,6 +154,9 @@ class DatagramListenerProtocol(asyncio.DatagramProtocol):
         self.__write_flow = WriteFlowControl(self.__transport, self.__loop)
         _monkeypatch_transport(self.__transport, self.__loop)
 
+        # Disable in-memory byte buffering.
+        transport.set_write_buffer_limits(0)
+
     def connection_lost(self, exc: Exception | None) -> None:
         self.__connection_lost = True
         self.__serve_forever_fut.cancel(msg="connection_lost()")
